@@ -343,17 +343,23 @@ type convCase struct {
 
 func (c convCase) req() string { return fmt.Sprintf("conv %s %s %s", c.mode, hx(c.key), hxb(c.text)) }
 
-func runConv(c convCase) string {
+func runConv(c convCase) string { return runConvDebug(c, false) }
+
+// with --debug the data on stdout must be the same (a failing run may carry goyacc's trace there: known finding D15)
+func runConvDebug(c convCase, debug bool) string {
 	args := []string{"text", "conv", c.mode}
 	if c.mode == "syllable" && c.key != "" {
 		args = append(args, "--key", c.key)
+	}
+	if debug {
+		args = append(args, "--debug")
 	}
 	res := runCrd(c.text, 10*time.Second, args...)
 	switch res.class() {
 	case "crash":
 		return "crash"
 	case "err":
-		if len(res.stdout) != 0 {
+		if len(res.stdout) != 0 && !debug {
 			return "err-with-stdout"
 		}
 		return "err"
@@ -407,7 +413,11 @@ func streamConv() {
 		special := func(a, b string) bool {
 			ta, tb := strings.TrimSuffix(a, "m"), strings.TrimSuffix(b, "m")
 			twins := map[string]string{"C#": "Db", "Db": "C#", "F#": "Gb", "Gb": "F#", "B": "Cb", "Cb": "B", "D#": "Eb", "Eb": "D#", "G#": "Ab", "Ab": "G#", "A#": "Bb", "Bb": "A#"}
-			return ta[:1] == tb[:1] || twins[ta] == tb
+			if ta[:1] == tb[:1] || twins[ta] == tb {
+				return true
+			}
+			// relative keys (same signature, other tonic)
+			return relativeOf[a] == b
 		}
 		roots := rootSpellings()
 		for _, k1 := range keys28 {
@@ -426,6 +436,19 @@ func streamConv() {
 				}
 			}
 		}
+	}
+	// a --key that has no scale is refused whatever the text says about keys itself; the same key named twice in one
+	// brace block (the later one counts)
+	for _, bad := range []string{"Fb", "E#", "G#", "A#m", "Cbm", "xyz", "H", "Abm"} {
+		for _, txt := range []string{"C[1]{key=G} D[1]", "R[1]{key=Am} C[1]", "C[1] D[1]{key=G}", "C[1]{key=" + bad + "} D[1]", "C[1]{txt=x,key=D} D[1]"} {
+			cases = append(cases, convCase{"syllable", bad, []byte(txt)})
+		}
+	}
+	for _, k1 := range keys28 {
+		k2 := keys28[r.Intn(28)]
+		cases = append(cases, convCase{"syllable", "", []byte(fmt.Sprintf("A[1]{key=%s,key=%s} E[1] F#/A#[1] C[1]", k1, k2))},
+			convCase{"syllable", k2, []byte(fmt.Sprintf("R[1]{key=%s,txt=a,key=%s,txt=b} E[1] Bb/D[1]", k2, k1))},
+			convCase{"degree", "", []byte(fmt.Sprintf("1[1]{key=%s,key=%s,bpm=100,bpm=90,vel=p,vel=f,mtr=3/4,mtr=4/4} 5[1]", k1, k2))})
 	}
 	// three declarations of a key in one piece, the third being the first again or its enharmonic twin, each carried by
 	// a chord or by a rest: whatever is remembered about a key that was left must not come back under another spelling,
@@ -486,13 +509,19 @@ func streamConv() {
 		cases = append(cases, convCase{mode, key, txt})
 	}
 	results := make([]string, len(cases))
-	parallel(len(cases), func(i int) { results[i] = runConv(cases[i]) })
+	parallel(len(cases), func(i int) { results[i] = runConvDebug(cases[i], i%7 == 3) })
 	for i, c := range cases {
 		s.add(c.req(), results[i])
 		s.stat("class-" + strings.SplitN(results[i], " ", 2)[0])
 		s.stat("mode-" + c.mode)
+		if i%7 == 3 {
+			s.stat("with-debug")
+		}
 	}
 }
+
+var relativeOf = map[string]string{"C": "Am", "G": "Em", "D": "Bm", "A": "F#m", "E": "C#m", "B": "G#m", "F#": "D#m", "Gb": "Ebm", "Db": "Bbm", "Ab": "Fm", "Eb": "Cm", "Bb": "Gm", "F": "Dm",
+	"Am": "C", "Em": "G", "Bm": "D", "F#m": "A", "C#m": "E", "G#m": "B", "D#m": "F#", "Ebm": "Gb", "Bbm": "Db", "Fm": "Ab", "Cm": "Eb", "Gm": "Bb", "Dm": "F", "Cb": "Abm", "C#": "A#m"}
 
 func rootSpellings() []string {
 	var out []string
@@ -557,6 +586,10 @@ type rawChordDef struct {
 }
 
 type writeCase struct {
+	// repeatFirst = k > 0: the chord definitions go to two files, the first k in one, the rest in another, and the first
+	// file is named again after the second (--chord a --chord b --chord a): the dictionary is a, b, a in this order
+	repeatFirst int
+	debug       bool // run with --debug (the bytes written must be the same)
 	style  string // spelling of the YAML document (not part of the request: every spelling means the same)
 	flags  writeFlags
 	attrs  []rawAttr
@@ -569,7 +602,11 @@ func (c writeCase) req(op string) string {
 	for _, a := range c.attrs {
 		as = append(as, hx(a.name)+" "+pOptHx(a.degree))
 	}
-	for _, d := range c.chords {
+	chords := c.chords
+	if c.repeatFirst > 0 {
+		chords = append(append([]rawChordDef{}, c.chords...), c.chords[:c.repeatFirst]...)
+	}
+	for _, d := range chords {
 		var xs []string
 		for _, x := range d.attrs {
 			xs = append(xs, hx(x))
@@ -618,6 +655,9 @@ func dictYAMLStyled(attrs []rawAttr, chords []rawChordDef, st *yamlStyle) (strin
 func runWrite(idx int, c writeCase, sub ...string) (string, []byte) {
 	args := append([]string{"write"}, sub...)
 	args = append(args, c.flags.args()...)
+	if c.debug {
+		args = append(args, "--debug")
+	}
 	if len(c.attrs) > 0 || len(c.chords) > 0 {
 		dir := filepath.Join(outDir, fmt.Sprintf("dict-%d", idx))
 		must(os.MkdirAll(dir, 0o755))
@@ -629,6 +669,16 @@ func runWrite(idx int, c writeCase, sub ...string) (string, []byte) {
 			args = append(args, "--attr", filepath.Join(dir, "attr.yml"))
 		}
 		switch {
+		case c.repeatFirst > 0:
+			_, ch1 := dictYAML(nil, c.chords[:c.repeatFirst])
+			_, ch2 := dictYAML(nil, c.chords[c.repeatFirst:])
+			must(os.WriteFile(filepath.Join(dir, "house.yml"), []byte(ch1), 0o644))
+			must(os.WriteFile(filepath.Join(dir, "song.yml"), []byte(ch2), 0o644))
+			if idx%2 == 0 {
+				args = append(args, "--chord", filepath.Join(dir, "house.yml"), "--chord", filepath.Join(dir, "song.yml"), "--chord", filepath.Join(dir, "house.yml"))
+			} else {
+				args = append(args, "--chord", filepath.Join(dir, "house.yml")+","+filepath.Join(dir, "song.yml")+","+filepath.Join(dir, "house.yml"))
+			}
 		case len(c.chords) >= 2 && idx%3 == 1:
 			// the same definitions in two files (a later file may define what an earlier one builds on); the files
 			// are read in the order given and form one dictionary
@@ -724,6 +774,23 @@ func genInstance(r *rand.Rand, malformed bool) rawInstance {
 	}
 	for k := 0; k < 1+r.Intn(3); k++ {
 		i.values = append(i.values, genValue(r, false))
+	}
+	if r.Intn(40) == 0 { // terms over one large power of two whose numerators add up beyond 64 bits
+		k := uint(61 + r.Intn(3))
+		den := uint64(1) << k
+		i.values = nil
+		for t := 0; t < 2+r.Intn(2); t++ {
+			num := den*uint64(1+r.Intn(3)) + den/2*uint64(r.Intn(2)) + uint64(r.Intn(1000))
+			if k == 63 {
+				num = den + den/2 + uint64(r.Intn(1000))
+			}
+			i.values = append(i.values, fmt.Sprintf("%d/%d", num, den))
+		}
+	}
+	if r.Intn(40) == 0 { // a numerator of more than 53 bits over a denominator of far fewer
+		n := (r.Uint64() | 1<<63) >> uint(r.Intn(11))
+		v := uint64(1) << uint(4+r.Intn(12))
+		i.values = []string{fmt.Sprintf("%d/%d", n, n/v+uint64(r.Intn(1<<12))+1)}
 	}
 	if r.Intn(5) == 0 {
 		i.bpm = sp(fmt.Sprint(4 + r.Intn(400)))
@@ -834,6 +901,7 @@ func genWriteCase(r *rand.Rand) writeCase {
 		}
 		c.is = append(c.is, again...)
 	}
+	c.debug = r.Intn(9) == 0
 	switch r.Intn(10) {
 	case 0, 1:
 		c.style = "plain"
@@ -965,6 +1033,29 @@ func streamWrite() {
 			{chord: &rawChord{degree: sp("1"), name: ""}, values: []string{"1"}},
 			{chord: &rawChord{degree: sp("2"), name: ""}, values: []string{"1"}}, {values: []string{"2"}}}},
 	)
+	// fixed: several settings while the piece is still at tick 0 (a first instance shorter than a tick), settings
+	// named in the free-form metadata only, sums of large numerators, with and without --debug
+	{
+		ch := func(d string) *rawChord { return &rawChord{degree: sp(d), name: ""} }
+		pieces := [][]rawInstance{
+			{{chord: ch("1"), values: []string{"1/4000"}, key: sp("Ab")}, {chord: ch("1"), values: []string{"1"}, key: sp("F#m"), bpm: sp("90"), meter: sp("3/4")}, {chord: ch("5"), values: []string{"1"}}},
+			{{values: []string{"1/4000"}, key: sp("Db"), bpm: sp("60")}, {values: []string{"1/5000"}, key: sp("E"), bpm: sp("70")}, {chord: ch("1"), values: []string{"1"}, key: sp("Cb"), bpm: sp("80"), meter: sp("6/8")}},
+			{{chord: ch("1"), values: []string{"1"}}, {chord: ch("4"), values: []string{"1"}, meta: &[][2]string{{"txt", "x"}, {"bpm", "200"}, {"mtr", "3/4"}, {"key", "G"}, {"vel", "ff"}}}, {chord: ch("5"), values: []string{"1"}}},
+			{{chord: ch("1"), values: []string{"1"}, meta: &[][2]string{{"key", "D"}}}, {chord: ch("1"), values: []string{"1"}, meta: &[][2]string{{"key", "zz"}, {"bpm", "x"}}}},
+			{{chord: ch("1"), values: []string{"13835058055282163712/9223372036854775808", "13835058055282163712/9223372036854775808"}}, {chord: ch("5"), values: []string{"1"}}},
+			{{chord: ch("1"), values: []string{"6917529027641081856/4611686018427387904", "6917529027641081856/4611686018427387904", "6917529027641081856/4611686018427387904"}}, {chord: ch("5"), values: []string{"1"}}},
+			{{chord: ch("1"), values: []string{"9223372049127463984/35184397373439"}}, {chord: ch("5"), values: []string{"1"}}},
+			{{chord: ch("1"), values: []string{"1"}, bpm: sp("140"), meter: sp("5/4"), key: sp("Eb")}, {chord: ch("4"), values: []string{"2"}, bpm: sp("70")}, {values: []string{"1"}, key: sp("Cm"), meter: sp("2/2")}},
+		}
+		for _, p := range pieces {
+			for _, dbg := range []bool{false, true} {
+				for _, tr := range []int64{1, 3} {
+					cases = append(cases, writeCase{debug: dbg, flags: writeFlags{track: tr, instrument: "Piano"}, is: p},
+						writeCase{debug: dbg, flags: writeFlags{track: tr, instrument: "Piano", bpm: 140, key: "A", meter: "7/8"}, is: p})
+				}
+			}
+		}
+	}
 	// the same pieces spelled without quotes, with single quotes, and with YAML aliases and merges
 	{
 		la, verse := [][2]string{{"lic", "la"}}, [][2]string{{"lic", "la"}, {"mrk", "Verse"}}
@@ -1011,6 +1102,9 @@ func streamWrite() {
 		s.stat(fmt.Sprintf("tracks-%d", c.flags.track))
 		s.stat(fmt.Sprintf("len-%d", len(c.is)))
 		s.stat("yaml-" + c.style)
+		if c.debug {
+			s.stat("with-debug")
+		}
 	}
 	// C06 on the real code alone: the same document with N tracks and with one track
 	var multi []int
@@ -1116,6 +1210,12 @@ func genDict(r *rand.Rand) ([]rawAttr, []rawChordDef, []string) {
 		if r.Intn(8) == 0 { // override a built-in display
 			c.display = symbols[1+r.Intn(len(symbols)-1)]
 		}
+		if r.Intn(10) == 0 { // a symbol or name that differs from another one by white space only is another symbol
+			c.display = []string{"m7 ", " m", "7\t", " ", "M7 ", " x0", "x0 ", "dim\n"}[r.Intn(8)]
+			if r.Intn(3) == 0 {
+				c.name = []string{"MinorTriad ", " MajorTriad", "X0 "}[r.Intn(3)]
+			}
+		}
 		parents = append(parents, c.name, c.display)
 		queries = append(queries, c.name, c.display)
 		chords = append(chords, c)
@@ -1203,6 +1303,9 @@ func streamDict() {
 			chords = append(append([]rawChordDef{}, chords[k:]...), chords[:k]...)
 		}
 		c := writeCase{flags: writeFlags{track: 1, instrument: "Piano"}, attrs: attrs, chords: chords}
+		if len(chords) >= 2 && r.Intn(6) == 0 {
+			c.repeatFirst = 1 + r.Intn(len(chords)-1)
+		}
 		q := queries[r.Intn(len(queries))]
 		c.is = []rawInstance{{chord: &rawChord{degree: sp("1"), name: q}, values: []string{"1"}}}
 		if r.Intn(2) == 0 { // several look-ups in one run, with repeats
@@ -1240,6 +1343,57 @@ func streamDict() {
 					cases = append(cases, c)
 				}
 			}
+		}
+	}
+	// fixed cases: a file named again after another file that re-defines its chords (the last definition counts)
+	for _, sym := range []string{"pow", "m7", "7"} {
+		house := rawChordDef{name: "House" + sym, display: sym, attrs: []string{"Perfect1", "Perfect5"}}
+		song := rawChordDef{name: "Song" + sym, display: sym, attrs: []string{"Perfect1", "Perfect5", "Major9"}}
+		same := rawChordDef{name: "House" + sym, display: sym, attrs: []string{"Perfect1", "Major3"}}
+		for _, b := range []rawChordDef{song, same} {
+			for _, tr := range []int64{1, 2} {
+				cases = append(cases, writeCase{repeatFirst: 1, flags: writeFlags{track: tr, instrument: "Piano", key: "D"}, chords: []rawChordDef{house, b},
+					is: []rawInstance{{chord: &rawChord{degree: sp("2"), name: sym}, values: []string{"1"}}, {chord: &rawChord{degree: sp("5"), name: "House" + sym}, values: []string{"1"}}}})
+			}
+		}
+	}
+	// fixed cases: chords of very many notes (more than a byte can count), on one and on several tracks
+	for _, n := range []int{127, 128, 129, 255, 256, 257, 258, 300, 513} {
+		big := rawChordDef{name: "Cluster", display: "clu"}
+		small := []string{"Perfect1", "Minor2", "Major2", "Minor3", "Major3", "Perfect4", "Perfect5", "Minor6", "Major6", "Minor7", "Major7", "Perfect8", "Major9"}
+		for k := 0; k < n; k++ {
+			big.attrs = append(big.attrs, small[k%len(small)])
+		}
+		for _, tr := range []int64{1, 2, 3} {
+			cases = append(cases, writeCase{flags: writeFlags{track: tr, instrument: "Piano"}, chords: []rawChordDef{big},
+				is: []rawInstance{{values: []string{"1"}}, {chord: &rawChord{degree: sp("1"), name: "clu"}, values: []string{"2"}}, {values: []string{"1/2"}}, {chord: &rawChord{degree: sp("5"), name: ""}, values: []string{"1"}}}})
+		}
+	}
+	// fixed cases: long chains of inheritance (every link adds a note; the deepest chord sounds them all)
+	for _, n := range []int{8, 31, 32, 33, 34, 40, 64, 65, 130, 300} {
+		var chain []rawChordDef
+		adds := []string{"Major9", "Perfect11", "Major13", "Minor7", "Major7", "Minor9", "Augmented11", "Minor13", "Perfect8", "Major6"}
+		for k := 1; k <= n; k++ {
+			parent := "MajorTriad"
+			if k > 1 {
+				parent = fmt.Sprintf("t%d", k-1)
+				if k%2 == 0 {
+					parent = fmt.Sprintf("Tower%d", k-1)
+				}
+			}
+			chain = append(chain, rawChordDef{name: fmt.Sprintf("Tower%d", k), display: fmt.Sprintf("t%d", k), extends: parent, attrs: []string{adds[k%len(adds)]}})
+		}
+		for _, q := range []string{fmt.Sprintf("t%d", n), fmt.Sprintf("Tower%d", n-1), "t1"} {
+			cases = append(cases, writeCase{flags: writeFlags{track: 1, instrument: "Piano"}, chords: chain,
+				is: []rawInstance{{chord: &rawChord{degree: sp("1"), name: q}, values: []string{"1"}}}})
+		}
+		if n <= 40 { // children before parents
+			rev := append([]rawChordDef{}, chain...)
+			for i, j := 0, len(rev)-1; i < j; i, j = i+1, j-1 {
+				rev[i], rev[j] = rev[j], rev[i]
+			}
+			cases = append(cases, writeCase{flags: writeFlags{track: 1, instrument: "Piano"}, chords: rev,
+				is: []rawInstance{{chord: &rawChord{degree: sp("1"), name: fmt.Sprintf("t%d", n)}, values: []string{"1"}}}})
 		}
 	}
 	// fixed cases: chord names made of digits and accidentals next to interval numbers, so that writing degree, name
